@@ -205,6 +205,12 @@ def batch(n, seed):
             XO = vt.inverse_transf(np.array(uo, float))
             if not (np.all(XO >= lb) and np.all(XO <= ub)):
                 viol.setdefault("C11/inverse-output-outside-box", dict(ctx, outside_input=True))
+            # the far end of "outside": infinite internal coordinates (what an overflowing step produces) must still map
+            # INTO the box - onto the bound, or to +-inf for an unbounded coordinate - never to NaN
+            with np.errstate(all="ignore"):
+                XI = vt.inverse_transf(np.array([np.full(D, np.inf), np.full(D, -np.inf)]))
+            if np.any(np.isnan(XI)) or not (np.all(XI >= lb) and np.all(XI <= ub)):
+                viol.setdefault("C11/inverse-output-outside-box", dict(ctx, outside_input="infinite", got=XI))
             # affinity / log-affinity (midpoint tests)
             a, b = X[2], X[-3]
             with np.errstate(all="ignore"):
